@@ -7,6 +7,8 @@ root = os.environ.get("VERIF_ROOT", "/verif")
 V = {"C22": "q", "C21": "pipe", "C23": "iter"}
 if p in ("C16", "C17"):
     print(p.lower() + " tsres")  # + the typesystem-resolver interleaving sub-harness
+elif p in ("C14", "C15"):
+    print(p.lower() + " memw")  # + concurrent writers / paginating readers on the instrumented memory datastore
 elif os.path.isdir(os.path.join(root, "h/cmd", p.lower())):
     print(p.lower())
 elif p in V:
